@@ -478,7 +478,14 @@ func genIntExtreme(r *rng.R, tier string) corr.Case {
 	lines := []string{"newi " + strconv.Itoa(d)}
 	key := func() int {
 		if r.Chance(2, 3) {
-			return extremeKeys[r.Intn(len(extremeKeys))] + r.PickInt(0, 0, 0, 1, -1)*boolInt(r.Chance(1, 2))
+			k := extremeKeys[r.Intn(len(extremeKeys))]
+			switch off := r.PickInt(0, 0, 0, 1, -1); {
+			case off == 1 && k != 9223372036854775807:
+				k++
+			case off == -1 && k != -9223372036854775808:
+				k--
+			}
+			return k
 		}
 		return r.Range(-30, 30)
 	}
@@ -487,9 +494,6 @@ func genIntExtreme(r *rng.R, tier string) corr.Case {
 	for i := 0; i < n; i++ {
 		h := r.Intn(handles)
 		k := key()
-		if k == -9223372036854775808+(-1) || k == 9223372036854775807+1 { // wrapped by the ±1 above
-			k = 0
-		}
 		switch r.Intn(12) {
 		case 0, 1, 2, 3, 4:
 			lines = append(lines, fmt.Sprintf("ins %d %d 0", h, k))
@@ -515,13 +519,6 @@ func genIntExtreme(r *rng.R, tier string) corr.Case {
 		lines = append(lines, fmt.Sprintf("chk %d", h), fmt.Sprintf("len %d", h), fmt.Sprintf("scan %d asc - - all", h), fmt.Sprintf("scan %d desc - - all", h))
 	}
 	return corr.Case{Tag: "int-extreme", Lines: lines}
-}
-
-func boolInt(b bool) int {
-	if b {
-		return 1
-	}
-	return 0
 }
 
 // genHugeDegree: degrees 33…128 (nodes of up to 255 items: element moves of more than 64 cells, searches in nodes of
@@ -571,10 +568,13 @@ func genHugeDegree(r *rng.R, tier string) corr.Case {
 // genBigScan: scans that hand the callback (or return) many hundreds of items: a small-degree tree of 600…2000 keys
 // read through all ten entry points, and the wrapper with limits above and below the size.
 func genBigScan(r *rng.R, tier string) corr.Case {
-	N := r.PickInt(600, 800, 1100, 1500, 2000)
+	N := r.PickInt(600, 600, 800, 1100)
+	if tier != "quick" {
+		N = r.PickInt(600, 800, 1100, 1500, 2000)
+	}
 	if r.Chance(1, 2) {
 		lines := []string{"new " + strconv.Itoa(r.PickInt(2, 3, 5, 16)), fmt.Sprintf("fill 0 1 %d", N), "chk 0"}
-		for i := 0; i < 8; i++ {
+		for i := 0; i < 5; i++ {
 			name := scanNames[r.Intn(len(scanNames))]
 			lines = append(lines, scanLine(0, name, r.Range(-2, N/3), r.Range(N/2, N+2), r.Pick("all", "all", "ne:"+strconv.Itoa(r.Range(520, N)))))
 		}
@@ -582,7 +582,7 @@ func genBigScan(r *rng.R, tier string) corr.Case {
 		return corr.Case{Tag: "big-scan", Lines: lines}
 	}
 	lines := []string{"neww", fmt.Sprintf("wfill 1 %d", N), "wchk", "wlen"}
-	for i := 0; i < 8; i++ {
+	for i := 0; i < 5; i++ {
 		lim := r.PickInt(513, 600, 1000, 5000, N, N-1, N+1, 100000)
 		lines = append(lines, fmt.Sprintf("wscan %s %d %s %d", r.Pick("gte", "gt", "lte", "lt"), r.PickInt(-1, 0, 1, N/2, N, N+1), r.Pick("all", "all", "mod3", "odd"), lim))
 	}
@@ -732,7 +732,7 @@ func spec() corr.Spec {
 				return genIntExtreme(r, tier)
 			case y == 1 && r.Chance(1, 2):
 				return genHugeDegree(r, tier)
-			case y == 2 && r.Chance(1, 3):
+			case y == 2 && r.Chance(1, 5):
 				return genBigScan(r, tier)
 			}
 			switch x := r.Intn(25); {
@@ -764,7 +764,10 @@ func spec() corr.Spec {
 				if strings.HasPrefix(l, "wrace ") && strings.HasPrefix(res.Outs[i], "a=") {
 					scans++
 				}
-				if (strings.HasPrefix(l, "ins ") || strings.HasPrefix(l, "wins ")) && res.Outs[i] != "bad-op" {
+				if (strings.HasPrefix(l, "fill ") || strings.HasPrefix(l, "wfill ")) && res.Outs[i] != "bad-op" {
+				ins += 3
+			}
+			if (strings.HasPrefix(l, "ins ") || strings.HasPrefix(l, "wins ")) && res.Outs[i] != "bad-op" {
 					ins++
 				}
 				if (strings.HasPrefix(l, "scan ") || strings.HasPrefix(l, "wscan ")) && len(res.Outs[i]) > 2 && res.Outs[i][0] == '[' {
